@@ -44,6 +44,10 @@ def gen_case(rng):
     return {"n": n, "bases": bases, "vp": vp, "defs": defs,
             "container": rng.random() < 0.4,
             "per_class_reg": rng.random() < 0.3,
+            # (macro styles) the method lives in a namespace nested in one
+            # that declares another method with the same name, signature and
+            # policy and a definition of its own: two distinct methods
+            "shadow": rng.random() < 0.4,
             "reg_order": rng.sample(range(n), n),
             "style": rng.choice(["macro", "macro", "macro_inline",
                                  "static_method", "use_next",
@@ -147,6 +151,20 @@ def emit(case):
     if case["extra_int"]:
         params.insert(1 if len(params) > 1 else 0, "int")
     style = case.get("style", "macro")
+    shadow = case.get("shadow", False) and style in ("macro", "macro_inline")
+    out.append("static std::string g_chain;")
+    if shadow:
+        # (the classes are global, so argument-dependent lookup does not
+        # reach namespace outer; inside inner, inner's walk hides outer's)
+        out.append("namespace outer {")
+        out.append("declare_method(void, walk, (%s), pol);" %
+                   ", ".join(params))
+        sp = ["K%d& a%d" % (c, k) for k, c in enumerate(case["vp"])]
+        if case["extra_int"]:
+            sp.insert(1 if len(sp) > 1 else 0, "int x")
+        out.append("define_method(void, walk, (%s)) { g_chain += \"X>\"; }" %
+                   ", ".join(sp))
+        out.append("namespace inner {")
     if style in ("macro", "macro_inline"):
         out.append("declare_method(void, walk, (%s), pol);" %
                    ", ".join(params))
@@ -163,7 +181,6 @@ def emit(case):
                    ", ".join(params))
         out.append("template<class... T> void walk(T&&... a) { "
                    "walk_m::fn(std::forward<T>(a)...); }")
-    out.append("static std::string g_chain;")
     if (style == "macro" and case["container"]) or style == "macro_inline":
         out.append("method_container(defs);")
     for d, t in enumerate(case["defs"]):
@@ -208,6 +225,8 @@ def emit(case):
             if style == "add_function_twice":
                 out.append("static walk_m::add_function<fn%d> again%d;" % (
                     d, d))
+    if shadow:
+        out.append("} } // namespace outer::inner")
     out.append("static std::string record() {")
     out.append("    std::string r;")
     for c in range(n):
@@ -218,7 +237,8 @@ def emit(case):
                 for p, c in zip(case["vp"], t)]
         if case["extra_int"]:
             args.insert(1 if len(args) > 1 else 0, "7")
-        out.append("    g_chain.clear(); try { walk(%s); g_chain += \"?\"; } "
+        out.append("    g_chain.clear(); try { " + (
+            "outer::inner::" if shadow else "") + "walk(%s); g_chain += \"?\"; } "
                    "catch (const resolution_error& e) { g_chain += e.status "
                    "== resolution_error::ambiguous ? \"A\" : \"N\"; } r += "
                    "g_chain + \" \";" % ", ".join(args))
@@ -304,6 +324,10 @@ def check(tier, seed, scratch, inc, ncpu, pool_map, prop="C03"):
                              case.get("style", "macro") == "macro"),
                             ("next_program_style_" +
                              case.get("style", "macro"), True),
+                            ("next_program_same_name_in_outer_namespace",
+                             case.get("shadow", False) and
+                             case.get("style", "macro") in (
+                                 "macro", "macro_inline")),
                             ("next_chain_of_3+_definitions", long_chain)):
             if flag:
                 res["classes"][label] = res["classes"].get(label, 0) + 1
@@ -341,4 +365,6 @@ def shrinks(case):
         out.append(dict(case, extra_int=False))
     if case.get("style", "macro") != "macro":
         out.append(dict(case, style="macro"))
+    if case.get("shadow"):
+        out.append(dict(case, shadow=False))
     return out
